@@ -126,6 +126,7 @@ func c06One(t *testing.T, p *Plan, planPath string, crashes []string, st *c06Sta
 	}
 	defer os.RemoveAll(dir)
 	db := filepath.Join(dir, "w.db")
+	c06DBSuffix = c06DBSuffixOf(p)
 	w := NewWorld(p)
 	nHist := min(int(p.Cfg.Extra["tail_from"]), len(p.Ops))
 	tracked := map[string]Stored{}
@@ -301,6 +302,9 @@ func init() {
 				}
 			}
 			p.Cfg.Extra = map[string]int64{"tail_from": int64(len(p.Ops)), "torn_seed": int64(r.Uint32()), "second_seed": int64(r.Uint32())}
+			if n%4 == 2 {
+				p.Cfg.Extra["wal"] = 1 // the operator runs the store in WAL mode (--db_file=<path>?_journal_mode=WAL)
+			}
 			for l := range p.Cfg.Logs {
 				nb := len(p.Cfg.Logs[l].Forks) + 1
 				p.Ops = append(p.Ops, Op{K: "update", L: l, B: 1 + r.IntN(nb-1), Sz: "rel1", D: 0, P: "empty"})
